@@ -381,21 +381,61 @@ fn check_automata(
         st.count("automata");
         let a = tantivy_fst::Regex::new(pat).map_err(|e| Fail("machinery".into(), format!("{e:?}")))?;
         let want: Vec<Vec<u8>> = model.keys().filter(|k| run_automaton(&a, k)).cloned().collect();
-        // with a range bound as well
-        for lo in [None, Some(b"a".to_vec())] {
-            let mut b = dict.search(&a);
-            let mut w2 = want.clone();
-            if let Some(l) = &lo {
-                b = b.ge(l);
-                w2.retain(|k| k >= l);
-            }
-            let mut stream = b.into_stream().map_err(|e| Fail("search_error".into(), e.to_string()))?;
-            let mut got = vec![];
-            while stream.advance() {
-                got.push(stream.key().to_vec());
-            }
-            if got != w2 {
-                return Err(Fail("automaton".into(), format!("search(regex {pat:?}, ge {lo:?}) yields {} keys, want {}", got.len(), w2.len())));
+        // with range bounds as well: every key of the dictionary (and its successor-ish neighbours) as an
+        // inclusive / exclusive lower bound x a few upper bounds
+        let mut bounds: Vec<Vec<u8>> = model.keys().cloned().collect();
+        bounds.push(b"a".to_vec());
+        bounds.push(b"ab".to_vec());
+        bounds.sort();
+        bounds.dedup();
+        let mut los: Vec<(u8, Vec<u8>)> = vec![(0, vec![])];
+        for k in &bounds {
+            los.push((1, k.clone()));
+            los.push((2, k.clone()));
+        }
+        let mut his: Vec<(u8, Vec<u8>)> = vec![(0, vec![])];
+        if let Some(last) = bounds.last() {
+            his.push((1, last.clone()));
+            his.push((2, last.clone()));
+        }
+        if bounds.len() >= 2 {
+            his.push((1, bounds[bounds.len() / 2].clone()));
+        }
+        for (lk, lo) in &los {
+            for (hk, hi) in &his {
+                st.count("automata_with_bounds");
+                let mut b = dict.search(&a);
+                let mut w2 = want.clone();
+                match lk {
+                    1 => {
+                        b = b.ge(lo);
+                        w2.retain(|k| k >= lo);
+                    }
+                    2 => {
+                        b = b.gt(lo);
+                        w2.retain(|k| k > lo);
+                    }
+                    _ => {}
+                }
+                match hk {
+                    1 => {
+                        b = b.le(hi);
+                        w2.retain(|k| k <= hi);
+                    }
+                    2 => {
+                        b = b.lt(hi);
+                        w2.retain(|k| k < hi);
+                    }
+                    _ => {}
+                }
+                let mut stream = b.into_stream().map_err(|e| Fail("search_error".into(), e.to_string()))?;
+                let mut got = vec![];
+                while stream.advance() {
+                    got.push(stream.key().to_vec());
+                }
+                if got != w2 {
+                    return Err(Fail("automaton".into(), format!("search(regex {pat:?}) with lower bound kind {lk} {:?} upper bound kind {hk} {:?} (1 = inclusive, 2 = exclusive) yields {:?}, want {:?}", hex(lo), hex(hi), got.iter().map(|k| hex(k)).collect::<Vec<_>>(), w2.iter().map(|k| hex(k)).collect::<Vec<_>>())));
+                }
             }
         }
     }
